@@ -883,3 +883,260 @@ theorem session_in_step {P : Bytes → Bool} {cfg : Cfg} {dv : LineDev} (hf : Fi
     · rw [hwr]; simp [List.append_assoc]
 
 end Scrapli.Chan
+
+namespace Scrapli.Chan
+open Scrapli
+
+/-- whatever the stop test, a successful loop returns the start buffer plus exactly the pieces consumed -/
+theorem readLoop_result_eq (stop : Bytes → Bool) : ∀ (cs : List Bytes) (acc buf : Bytes) (k : Nat),
+    readLoop stop acc cs = some (buf, k) → buf = acc ++ (cs.take k).flatten := by
+  intro cs
+  induction cs with
+  | nil => intro acc buf k h; simp [readLoop] at h
+  | cons c cs ih =>
+    intro acc buf k h
+    unfold readLoop at h
+    simp only at h
+    split at h
+    · simp only [Option.some.injEq, Prod.mk.injEq] at h
+      obtain ⟨rfl, rfl⟩ := h
+      simp
+    · cases hr : readLoop stop (acc ++ c) cs with
+      | none => simp [hr] at h
+      | some r =>
+        simp only [hr, Option.map_some, Option.some.injEq, Prod.mk.injEq] at h
+        obtain ⟨rfl, rfl⟩ := h
+        have := ih (acc ++ c) r.1 r.2 (by rw [hr])
+        rw [this]; simp [List.append_assoc]
+
+/-! ### get_prompt: the whole buffer is searched after every read (no window) -/
+
+theorem last_line_mem (x z : Bytes) (hnl : NL ∉ z) : z ∈ splitNL (x ++ NL :: z) := by
+  rw [splitNL_append_NL, splitNL_noNL z hnl]; simp
+
+/-- the read loop of `get_prompt`: over ANY piece list concatenating to `body ++ NL :: p ++ t` it
+    stops at the first boundary where the prompt is complete -/
+theorem readLoop_search {P : Bytes → Bool} (pat : Pat) (body p t : Bytes)
+    (hS : ∀ w, pat.search w = (splitNL w).any P)
+    (hb : Quiet P body) (he : NoEarly P p) (hok : PromptOK P p t)
+    (hnlp : NL ∉ p) (hnlt : NL ∉ t) :
+    ∀ (cs : List Bytes) (acc : Bytes), acc ++ cs.flatten = body ++ NL :: p ++ t →
+      acc.length < (body ++ NL :: p).length →
+      ∃ k t', t' <+: t ∧
+        readLoop pat.search acc cs = some (body ++ NL :: p ++ t', k) := by
+  intro cs
+  induction cs with
+  | nil =>
+    intro acc h hlen
+    simp only [List.flatten_nil, List.append_nil] at h
+    subst h
+    simp at hlen
+    omega
+  | cons c cs ih =>
+    intro acc h hlen
+    have h' : (acc ++ c) ++ cs.flatten = body ++ NL :: p ++ t := by simpa [List.append_assoc] using h
+    have h'' : (acc ++ c) ++ cs.flatten = (body ++ NL :: p) ++ t := by simpa using h'
+    by_cases hlt : (acc ++ c).length < (body ++ NL :: p).length
+    · have hpre : acc ++ c <+: body ++ NL :: p :=
+        List.prefix_of_prefix_length_le ⟨_, h''⟩ ⟨t, rfl⟩ (Nat.le_of_lt hlt)
+      have hq := quiet_before_prompt hb he hnlp hpre hlt
+      have hstop : pat.search (acc ++ c) = false := by rw [hS]; exact quiet_any hq
+      obtain ⟨k, t', ht', hrl⟩ := ih (acc ++ c) h' hlt
+      refine ⟨k + 1, t', ht', ?_⟩
+      unfold readLoop; simp only [hstop]; rw [hrl]; rfl
+    · have hge : (body ++ NL :: p).length ≤ (acc ++ c).length := Nat.le_of_not_lt hlt
+      obtain ⟨t', ht'⟩ := List.prefix_of_prefix_length_le ⟨t, rfl⟩ ⟨_, h''⟩ hge
+      have htt : t' <+: t := by
+        rw [← ht', List.append_assoc] at h''
+        exact ⟨cs.flatten, List.append_cancel_left h''⟩
+      have hacc : acc ++ c = body ++ NL :: (p ++ t') := by rw [← ht']; simp
+      have hznl : NL ∉ p ++ t' := by
+        intro hm
+        rcases List.mem_append.mp hm with h1 | h1
+        · exact hnlp h1
+        · exact hnlt (htt.subset h1)
+      have hstop : pat.search (acc ++ c) = true := by
+        rw [hS, hacc, List.any_eq_true]
+        exact ⟨p ++ t', last_line_mem body (p ++ t') hznl, hok t' htt⟩
+      refine ⟨1, t', htt, ?_⟩
+      unfold readLoop; simp only [hstop, ↓reduceIte]; rw [hacc]; simp
+
+theorem dropWhile_all {p : UInt8 → Bool} : ∀ (l : Bytes), (∀ x ∈ l, p x = true) → l.dropWhile p = [] := by
+  intro l
+  induction l with
+  | nil => intro _; rfl
+  | cons c r ih =>
+    intro h
+    simp only [List.dropWhile_cons, h c (by simp), ↓reduceIte]
+    exact ih (fun x hx => h x (by simp [hx]))
+
+theorem strip_append_hws (a b : Bytes) (h : ∀ x ∈ b, isHws x = true) : strip (a ++ b) = strip a := by
+  unfold strip
+  by_cases ha : ∀ x ∈ a, isWs x = true
+  · -- everything is whitespace
+    have h1 : (a ++ b).dropWhile isWs = [] := by
+      apply dropWhile_all
+      intro x hx
+      rcases List.mem_append.mp hx with hx | hx
+      · exact ha x hx
+      · exact hws_ws h x hx
+    have h2 : a.dropWhile isWs = [] := dropWhile_all a ha
+    rw [h1, h2]
+  · -- the first non-blank byte is in `a`
+    have : (a ++ b).dropWhile isWs = a.dropWhile isWs ++ b := by
+      induction a with
+      | nil => exact absurd (by simp) ha
+      | cons c r ih =>
+        by_cases hc : isWs c = true
+        · have hr : ¬ ∀ x ∈ r, isWs x = true := by
+            intro hall; apply ha; intro x hx
+            rcases List.mem_cons.mp hx with rfl | hx
+            · exact hc
+            · exact hall x hx
+          simp only [List.cons_append, List.dropWhile_cons, hc, ↓reduceIte]
+          exact ih hr
+        · simp [List.dropWhile_cons, hc]
+    rw [this, rstrip_append_ws _ _ (hws_ws h)]
+
+/-- **`get_prompt` against the causal device, for every segmentation**: it writes one return and
+    returns the device's prompt (stripped), whatever blanks were left unread before. -/
+theorem getPrompt_exact {P : Bytes → Bool} {cfg : Cfg} {dv : LineDev} (hf : Fits P cfg dv)
+    (hfirst : ∀ x L, (splitNL x).find? P = some L →
+      ∃ m, cfg.prompt.first x = some m ∧ strip m = strip L)
+    (hout : dv.out [] = [])
+    (w : Wire) (hres : ∀ x ∈ w.avail, isHws x = true) :
+    ∃ w', getPrompt cfg dv.onWrite (w, []) = some (strip dv.prompt, (w', [])) ∧
+      w'.writes = w.writes ++ [[NL]] ∧ (∀ x ∈ w'.avail, isHws x = true) := by
+  have hrb : dv.rbody [] = [] := by simp [LineDev.rbody, hout]
+  have hw1 : Wire.write dv.onWrite (w, []) cfg.ret =
+      ({ w with avail := w.avail ++ dv.respond [], writes := w.writes ++ [[NL]] }, []) := by
+    simp [Wire.write, hf.ret, dv.onWrite_return]
+  have hav : w.avail ++ dv.respond [] = w.avail ++ NL :: dv.prompt ++ dv.trail := by
+    simp [LineDev.respond, hrb]
+  have hpl : Plain (w.avail ++ dv.respond []) := by
+    rw [hav]
+    exact ((hws_plain hres).append (nl_cons_plain hf.prompt_plain)).append (hws_plain hf.trail_hws)
+  have hq : Quiet P w.avail := by
+    intro l hl s hs
+    rw [splitNL_noNL _ (hws_noNL hres)] at hl
+    have : l = w.avail := by simpa using hl
+    subst this
+    exact hf.blank s (squishBuf_infix_nil hs (hws_squishBuf hres))
+  obtain ⟨k, t', htt, hrl⟩ :=
+    readLoop_search cfg.prompt w.avail dv.prompt dv.trail hf.search_lines hq hf.noEarly hf.promptOK
+      hf.prompt_nl (hws_noNL hf.trail_hws)
+      (piecesOf (w.avail ++ dv.respond []) w.cuts) [] (by simp [piecesOf_flatten, hav])
+      (by simp; omega)
+  -- the first matching line of the buffer is `prompt ++ t'`
+  obtain ⟨t'', ht''⟩ := htt
+  have ht'hws := (suffix_hws ht'' hf.trail_hws).1
+  have hfind : (splitNL (w.avail ++ NL :: dv.prompt ++ t')).find? P = some (dv.prompt ++ t') := by
+    have hznl : NL ∉ dv.prompt ++ t' := by
+      intro hm
+      rcases List.mem_append.mp hm with h1 | h1
+      · exact hf.prompt_nl h1
+      · exact hws_noNL ht'hws h1
+    have e : w.avail ++ NL :: dv.prompt ++ t' = w.avail ++ NL :: (dv.prompt ++ t') := by simp
+    rw [e, splitNL_append_NL, splitNL_noNL _ (hws_noNL hres), splitNL_noNL _ hznl]
+    have h1 : P w.avail = false := hf.blank _ (hws_squishBuf hres)
+    have h2 : P (dv.prompt ++ t') = true := hf.promptOK t' ⟨t'', ht''⟩
+    simp [List.find?, h1, h2]
+  obtain ⟨m, hm1, hm2⟩ := hfirst _ _ hfind
+  have hsplit := pieces_split w.cuts (w.avail ++ dv.respond []) k
+  refine ⟨{ avail := ((piecesOf (w.avail ++ dv.respond []) w.cuts).drop k).flatten,
+            cuts := w.cuts.drop k, writes := w.writes ++ [[NL]] }, ?_, rfl, ?_⟩
+  · unfold getPrompt
+    simp only [hw1]
+    unfold Wire.readUntil
+    simp only [piecesOf_plain _ _ hpl]
+    rw [hrl]
+    simp only [hm1]
+    rw [hm2, strip_append_hws _ _ ht'hws]
+  · -- what is left unread is a suffix of the trailing blanks
+    have hk : ((piecesOf (w.avail ++ dv.respond []) w.cuts).take k).flatten =
+        w.avail ++ NL :: dv.prompt ++ t' := by
+      -- from the loop result: the buffer is the concatenation of the consumed pieces
+      have := readLoop_result_eq cfg.prompt.search (piecesOf (w.avail ++ dv.respond []) w.cuts) [] _ k hrl
+      simpa using this.symm
+    rw [hk] at hsplit
+    have : ((piecesOf (w.avail ++ dv.respond []) w.cuts).drop k).flatten = t'' := by
+      have e : (w.avail ++ NL :: dv.prompt ++ t') ++
+          ((piecesOf (w.avail ++ dv.respond []) w.cuts).drop k).flatten =
+          (w.avail ++ NL :: dv.prompt ++ t') ++ t'' := by
+        rw [hsplit, hav, ← ht'']; simp [List.append_assoc]
+      exact List.append_cancel_left e
+    rw [this]
+    exact (suffix_hws ht'' hf.trail_hws).2
+
+end Scrapli.Chan
+
+namespace Scrapli.Chan
+open Scrapli
+
+/-! ### sessions mixing get_prompt and commands -/
+
+inductive COp where
+  | cmd (input : Bytes)
+  | prompt
+
+/-- any sequence of `send_command` / `get_prompt` on one connection; the result list holds the
+    processed result of each command and the prompt returned by each get_prompt -/
+def runOps (cfg : Cfg) (dev : σ → Bytes → σ × Bytes) (stripPrompt : Bool) :
+    List COp → (Wire × σ) → Option (List Bytes × (Wire × σ))
+  | [], s => some ([], s)
+  | .cmd i :: ops, s =>
+    match sendInput cfg dev i stripPrompt false false s with
+    | none => none
+    | some (r, s') => (runOps cfg dev stripPrompt ops s').map (fun x => (r.2 :: x.1, x.2))
+  | .prompt :: ops, s =>
+    match getPrompt cfg dev s with
+    | none => none
+    | some (r, s') => (runOps cfg dev stripPrompt ops s').map (fun x => (r :: x.1, x.2))
+
+def expectedOp (cfg : Cfg) (dv : LineDev) (stripPrompt : Bool) : COp → Bytes
+  | .cmd i => expected cfg dv stripPrompt i
+  | .prompt => strip dv.prompt
+
+def opWrites : COp → List Bytes
+  | .cmd i => [i, [NL]]
+  | .prompt => [[NL]]
+
+theorem mixed_session_in_step {P : Bytes → Bool} {cfg : Cfg} {dv : LineDev} (hf : Fits P cfg dv)
+    (hfirst : ∀ x L, (splitNL x).find? P = some L →
+      ∃ m, cfg.prompt.first x = some m ∧ strip m = strip L)
+    (hout : dv.out [] = []) (stripPrompt : Bool) :
+    ∀ (ops : List COp), (∀ i, COp.cmd i ∈ ops → GoodCmd P dv i) →
+    ∀ (w : Wire), (∀ x ∈ w.avail, isHws x = true) →
+      ∃ rs w', runOps cfg dv.onWrite stripPrompt ops (w, []) = some (rs, (w', [])) ∧
+        rs = ops.map (expectedOp cfg dv stripPrompt) ∧
+        w'.writes = w.writes ++ (ops.map opWrites).flatten ∧
+        (∀ x ∈ w'.avail, isHws x = true) := by
+  intro ops
+  induction ops with
+  | nil => intro _ w hw; exact ⟨[], w, rfl, rfl, by simp, hw⟩
+  | cons o ops ih =>
+    intro hg w hw
+    have hg' : ∀ i, COp.cmd i ∈ ops → GoodCmd P dv i := fun i hi => hg i (by simp [hi])
+    cases o with
+    | cmd i =>
+      obtain ⟨L, t', t'', cuts', hLws, hLnl, htt, hsend⟩ :=
+        sendInput_frames hf i (hg i (by simp)) stripPrompt w hw
+      obtain ⟨ht', ht''⟩ := suffix_hws htt hf.trail_hws
+      obtain ⟨rs, w', hrun, hres, hwr, hav⟩ :=
+        ih hg' { avail := t'', cuts := cuts', writes := w.writes ++ [i, [NL]] } ht''
+      refine ⟨processOutput cfg (L ++ dv.rbody i ++ NL :: dv.prompt ++ t') stripPrompt :: rs, w', ?_, ?_, ?_, hav⟩
+      · unfold runOps; rw [hsend]; simp only; rw [hrun]; rfl
+      · rw [hres]
+        simp only [List.map_cons, expectedOp, expected]
+        congr 1
+        exact processOutput_indep cfg dv i L t' stripPrompt hLws hLnl ht' hf.prompt_ne hf.prompt_nl
+      · rw [hwr]; simp [opWrites, List.append_assoc]
+    | prompt =>
+      obtain ⟨w1, hgp, hw1, hav1⟩ := getPrompt_exact hf hfirst hout w hw
+      obtain ⟨rs, w', hrun, hres, hwr, hav⟩ := ih hg' w1 hav1
+      refine ⟨strip dv.prompt :: rs, w', ?_, ?_, ?_, hav⟩
+      · unfold runOps; rw [hgp]; simp only; rw [hrun]; rfl
+      · rw [hres]; simp [expectedOp]
+      · rw [hwr, hw1]; simp [opWrites, List.append_assoc]
+
+end Scrapli.Chan
